@@ -220,6 +220,8 @@ def call(I, f, args, kwargs):
         return f(*nativize(args), **nativize(kwargs))
 
     # ---- symbolic arguments: modelled built-ins only
+    if f is types.SimpleNamespace:
+        return f(*args, **kwargs)  # a plain attribute holder
     if f is builtins.sum:
         return _sum(I, args)
     if f in (builtins.min, builtins.max):
